@@ -40,7 +40,7 @@ DESIGN_REF = "DESIGN.md 4 C19"
 EXHAUSTIVE = {"quick": True, "thorough": False}
 REQUIRED_REACH = ["spelling_equivalence", "stale_ignored", "reuse", "mixed_spellings",
                   "class:mixed=alias+subvar_id", "class:mixed=alias+elem_id_int",
-                  "class:mixed=elem_id_str+alias", "class:slot=hide",
+                  "class:mixed=elem_id_str+alias", "class:alias_is_another_items_subvar_id", "class:slot=hide",
                   "class:slot=rename", "class:slot=explicit", "class:slot=fixed_top",
                   "class:slot=opposing", "class:slot=derived_insertion", "class:kind=mr",
                   "class:kind=ca_items", "class:kind=numarr", "class:kind=datetime",
@@ -57,7 +57,7 @@ def units(tier, seed):
     for rep in range(reps):
         for template in TEMPLATES:
             for n in sizes:
-                for style in ("std", "scatter", "crossed"):
+                for style in ("std", "scatter", "crossed", "rotated"):
                     for slot in SLOTS:
                         out.append({"template": template, "n": n, "style": style,
                                     "slot": slot, "seed": seed, "rep": rep})
@@ -71,6 +71,20 @@ def make_case(unit):
 # --------------------------------------------------------------------------------- build
 
 
+def _items(g, n, prefix, style):
+    """Item descriptors; 'rotated': sub-variables re-aliased after creation, so that the alias
+    of item j is the sub-variable id of item j+1. The documented cascade lets the alias win:
+    such a string names the item whose *alias* it is, and the element-id spellings of that
+    item must agree with it (the captured sub-variable-id spelling is not tried)."""
+    if style != "rotated":
+        return g.items(n, prefix, style=style)
+    items = g.items(n, prefix, style="std")
+    for j, it in enumerate(items):
+        it["subvar_id"] = "%s_r%d" % (prefix, j)
+        it["alias"] = "%s_r%d" % (prefix, (j + 1) % n) if n > 1 else "%s_q0" % prefix
+    return items
+
+
 def _build(unit):
     g = gen.G("C19/%s/%s/%s/%s/%s" % (unit["seed"], unit["template"], unit["n"],
                                       unit["style"], unit["rep"]))
@@ -81,7 +95,7 @@ def _build(unit):
     for pos, p in enumerate(template.split("|")):
         if p in ("mr", "mrd"):
             v = g.mr(N, n_items=unit["n"] + (1 if p == "mrd" else 0), p_missing=0.1)
-            v.items = g.items(len(v.items), v.alias, style=unit["style"])
+            v.items = _items(g, len(v.items), v.alias, unit["style"])
             if p == "mrd":
                 # one zz9-derived item; derived insertions use their name as sub-variable id
                 it = v.items[0]
@@ -96,7 +110,7 @@ def _build(unit):
         elif p in ("cai", "cac"):
             if not any(r in ("ca_items", "ca_cats") for r, _ in facets):
                 ca = g.ca(N, n_items=unit["n"], n_valid=3, n_missing=1)
-                ca.items = g.items(unit["n"], ca.alias, style=unit["style"])
+                ca.items = _items(g, unit["n"], ca.alias, unit["style"])
             facets.append(("ca_items" if p == "cai" else "ca_cats", ca))
             if p == "cai":
                 array_pos = pos
@@ -131,6 +145,8 @@ def _spellings(role, var):
     for j, it in enumerate(var.items):
         d = {"alias": it["alias"], "subvar_id": it["subvar_id"],
              "elem_id_int": raw_ids[j], "elem_id_str": str(raw_ids[j])}
+        if any(x is not it and x["alias"] == it["subvar_id"] for x in var.items):
+            del d["subvar_id"]  # captured by another item's alias (higher precedence)
         if j not in raw_ids and str(j) not in [str(x) for x in raw_ids]:
             d["position"] = j
         out.append(d)
@@ -196,6 +212,8 @@ def check_case(case):
         res.skipped["slot_needs_two_dimensions"] += 1
         return res
     spell = _spellings(role, var)
+    if unit["style"] == "rotated" and role != "cat" and len(spell) > 1:
+        res.classes.append("alias_is_another_items_subvar_id")
     items = list(range(len(spell)))
     if slot == "derived_insertion":
         if not (role == "mr" and any(it.get("derived") for it in var.items)) or is_rows:
